@@ -311,6 +311,10 @@ def monitor(pid, ops, outs, check_counters=False):
                 if not a:
                     raise Violation("%s:full-receive-buffer-acknowledges" % pid,
                                     "op %d: no receive buffer was available but the answer %s acknowledges %s" % (k, f["r"], f["c"]), k)
+            elif was_new and f1 == "ok" and a:
+                raise Violation("%s:valid-new-pdu-not-accepted" % pid,
+                                "op %d: the new PDU %s arrived intact and a receive buffer was available, but the answer %s does not acknowledge it"
+                                % (k, f["c"], f["r"]), k)
             accepted = now
             # ---- transmit direction
             m = (r["llid"], r["body"])
@@ -318,6 +322,10 @@ def monitor(pid, ops, outs, check_counters=False):
                 if m != (last_r["llid"], last_r["body"]):
                     raise Violation("%s:retransmission-differs" % pid,
                                     "op %d: answer %s has the SN of the previous answer but another content" % (k, f["r"]), k)
+                if c_nesn != last_r["sn"] and f1 == "ok" and a:
+                    raise Violation("%s:acknowledged-pdu-transmitted-again" % pid,
+                                    "op %d: the central's PDU %s acknowledges the previous answer (NESN %d), it arrived intact, but the answer %s repeats it"
+                                    % (k, f["c"], c_nesn, f["r"]), k)
             else:
                 if last_r is not None and not (c_nesn != last_r["sn"] and f1 in ("ok", "mic") and a):
                     raise Violation("%s:next-pdu-before-acknowledgement" % pid,
@@ -462,10 +470,10 @@ def run_c15(ctx, replay_path=None):
     depth = 6 if ctx.thorough else 4
     sessions += enumerate_patterns(depth)
     if ctx.thorough:
-        sessions += enumerate_patterns(5, cfg=1) + enumerate_patterns(5, cfg=3)
+        sessions += enumerate_patterns(4, cfg=1) + enumerate_patterns(4, cfg=3)
     res.extra["exhaustive_small_scope"] = ("every pattern over {(ok,answer received),(ok,answer lost),(lost),(crc,answer received)} "
                                            "of %d exchanges x 3 traffic shapes on <61,61>" % depth
-                                           + ("; 5 exchanges on <100,29> and on the encrypted layout" if ctx.thorough else ""))
+                                           + ("; 4 exchanges on <100,29> and on the encrypted layout" if ctx.thorough else ""))
     evaluate(ctx, res, "C15", sessions, proj_c15)
     res.samples = [" ; ".join(s[:10]) for s in sessions[len(corpus_sessions(ctx)):][:3]]
     return res
@@ -478,7 +486,7 @@ def run_c17(ctx, replay_path=None):
                 "arbitrary positions of the PDU stream, on new PDUs and on retransmissions; compared through the receive direction "
                 "projection (allocation outcome, NESN of the answer, delivered PDUs); the observer checks that a new PDU failing "
                 "its MIC is not acknowledged, and that every acknowledged PDU was delivered exactly once; thorough: every pattern over "
-                "{ok, ok/answer lost, mic, mic/answer lost, lost} of 6 exchanges x 3 traffic shapes")
+                "{ok, ok/answer lost, mic, mic/answer lost, lost} of 5 exchanges x 3 traffic shapes")
     sessions = corpus_sessions(ctx)
     n = 2500 if ctx.thorough else 300
     for i in range(n):
@@ -486,7 +494,7 @@ def run_c17(ctx, replay_path=None):
     for i in range(n // 5):
         sessions.append(gen_raw_session(ctx.rng, ["ok", "mic", "mic", "crc", "lost"]))
     alphabet = [("ok", 1), ("ok", 0), ("mic", 1), ("mic", 0), ("lost", 0)]
-    depth = 6 if ctx.thorough else 4
+    depth = 5 if ctx.thorough else 3
     sessions += enumerate_patterns(depth, alphabet)
     res.extra["exhaustive_small_scope"] = "every pattern over %s of %d exchanges x 3 traffic shapes" % (alphabet, depth)
     evaluate(ctx, res, "C17", sessions, proj_c17)
@@ -552,7 +560,7 @@ def build_counter_exe():
     key = hashlib.sha256((src + bits).encode()).hexdigest()[:16]
     d = os.path.join(core.CACHE, "harness")
     os.makedirs(d, exist_ok=True)
-    exe = os.path.join(d, "lldata_counter_%s" % key)
+    exe = os.path.join(d, "nrfcounter_%s" % key)
     if not os.path.exists(exe):
         cpp = exe + ".cpp"
         open(cpp, "w").write(src)
@@ -615,7 +623,7 @@ def run_c16(ctx, replay_path=None):
     for i in range(n // 5):
         sessions.append(gen_raw_session(ctx.rng, faults))
     alphabet = [("ok", 1), ("ok", 0), ("mic", 1), ("lost", 0), ("crc", 1)]
-    depth = 6 if ctx.thorough else 4
+    depth = 5 if ctx.thorough else 3
     sessions += enumerate_patterns(depth, alphabet, cfg=3)
     res.extra["exhaustive_small_scope"] = "every pattern over %s of %d exchanges x 3 traffic shapes (encrypted layout)" % (alphabet, depth)
     evaluate(ctx, res, "C16", sessions, proj_c16, check_counters=True)
